@@ -357,6 +357,22 @@ func stringLitsComparedWith(info *types.Info, body ast.Node, pred func(e ast.Exp
 				}
 			}
 		}
+		// `_, ok := table[x]` against a package-level map literal compares x with each of its keys
+		if ix, ok := n.(*ast.IndexExpr); ok && pred(ix.Index) {
+			if mv, ok := objOfIdent(info, ix.X).(*types.Var); ok && mv.Pkg() != nil && mv.Parent() == mv.Pkg().Scope() {
+				if lit := packageVarLiteral(mv); lit != nil {
+					for _, el := range lit.Elts {
+						if kv, ok := el.(*ast.KeyValueExpr); ok {
+							if bl, ok := ast.Unparen(kv.Key).(*ast.BasicLit); ok && bl.Kind == token.STRING {
+								if s, err := strconv.Unquote(bl.Value); err == nil {
+									out[s] = true
+								}
+							}
+						}
+					}
+				}
+			}
+		}
 		be, ok := n.(*ast.BinaryExpr)
 		if !ok || (be.Op != token.EQL && be.Op != token.NEQ) {
 			return true
@@ -493,3 +509,9 @@ func ruleC17RootShapes(c *Ctx) {
 		}
 	}
 }
+
+// pkgLiteralIndex: package-level variables and their composite-literal initialisers, filled while loading.
+var pkgLiteralIndex = map[*types.Var]*ast.CompositeLit{}
+
+// packageVarLiteral returns the composite literal a package-level variable is initialised with (nil if none).
+func packageVarLiteral(v *types.Var) *ast.CompositeLit { return pkgLiteralIndex[v] }
